@@ -4,8 +4,8 @@ F = "harness/C11_cait_complete.py"
 EXPLANATION = (
     "The pattern must be source text, so nothing about the pattern can stay symbolic: here the solver's role is to ENUMERATE, "
     "path by path and with a completeness verdict ('Confirmed over all paths' = no further feasible choice), a finite grid: "
-    "13 student templates (assignment with +, *, -; augmented assignment; if/else; for; call; method call; while; 3- and "
-    "4-statement programs; def/return; list/subscript) x identifiers from {a, b, ab} in each of three slots (so all "
+    "16 student templates (assignment with +, *, -; augmented assignment; if/else; for; call; method call; while; 3- and "
+    "4-statement programs; def/return; list/subscript; try/except/finally; nested def/for/if/return; repeated calls) x identifiers from {a, b, ab} in each of three slots (so all "
     "coincidences of variables) x constants from {0, 1, 2, 's'} x 9 derivation kinds (whole program; one statement; ___ for "
     "a sub-expression; __e__ for a sub-expression; _v_ for every occurrence of one identifier; a sibling statement dropped; "
     "_v_ and ___ combined; a statement dropped + _v_ + ___ for every constant (+ ___ for another name)) x up to 16 positions. For each choice the pattern is derived from a fresh parse of the student "
@@ -23,11 +23,11 @@ def obligations(tier):
     obs = []
     w = "pattern derived from the student's own program (template t, derivation d) is found, and a match binds the placeholder to what it replaced"
     if tier == "quick":
-        for t in (0, 4, 5, 9, 11, 12):
+        for t in (0, 4, 5, 9, 11, 12, 13, 14, 15):
             for d in ((2, 3, 4, 5, 6) if t not in (9, 11) else (2, 3, 4, 5, 6, 7, 8)):
                 obs.append(Ob("C11.derive", F, "derive", 200, part="%d,%d,q" % (t, d), what=w))
     else:
-        for t in range(13):
+        for t in range(16):
             for d in range(9):
                 obs.append(Ob("C11.derive", F, "derive", 600, part="%d,%d" % (t, d), what=w))
     obs.append(Ob("C11.derive_reach", F, "derive_reach", 60, expect="refute", what="twin: a _v_ generalisation matches"))
